@@ -150,6 +150,28 @@ def _memo_findings(ctx: Ctx) -> list[Finding]:
                 continue
             eq, attrs, cmp_class = _eq_attrs(repo, ci)
             if eq is None:
+                # keyed by object identity: stale when the function reads state of the object that changes after construction
+                mutable_attrs: set[str] = set()
+                for c in [ci] + repo.subclasses(ci):
+                    for m in c.methods.values():
+                        if m.name == "__init__":
+                            continue
+                        for n in walk_no_nested(m.node):
+                            tl = n.targets if isinstance(n, ast.Assign) else ([n.target] if isinstance(n, (ast.AugAssign, ast.AnnAssign)) else [])
+                            for t in tl:
+                                if isinstance(t, ast.Attribute) and unparse(t.value) == "self":
+                                    mutable_attrs.add(t.attr)
+                                if isinstance(t, ast.Subscript) and isinstance(t.value, ast.Attribute) and unparse(t.value.value) == "self":
+                                    mutable_attrs.add(t.value.attr)
+                            if isinstance(n, ast.Call) and isinstance(n.func, ast.Attribute) and isinstance(n.func.value, ast.Attribute) and unparse(n.func.value.value) == "self" \
+                                    and n.func.attr in ("append", "extend", "update", "pop", "clear", "add", "insert", "remove", "setdefault"):
+                                mutable_attrs.add(n.func.value.attr)
+                reads = sorted({n.attr for n in walk_no_nested(fn.node) if isinstance(n, ast.Attribute) and isinstance(n.value, ast.Name) and n.value.id == a.arg
+                                and isinstance(n.ctx, ast.Load) and n.attr in mutable_attrs})
+                if reads:
+                    verdict = Finding(fn, construct, f"the cache is keyed by the identity of `{a.arg}` ({ci.name}) but the function reads `{a.arg}.{reads[0]}`, which {ci.name}'s own methods "
+                                      "change after construction: a later call with the same object gets the result computed for its earlier state", "stale-state", touched)
+                    break
                 unknown.append(f"{a.arg} (keyed by object identity)")
                 continue
             # the function tells apart what the key does not
